@@ -32,6 +32,7 @@ func init() {
 			{ID: "C04-R7", Title: "the stack pointer is advanced only after the slot was written (it always indexes the array)", Floor: 1, Run: spStaysInRange},
 			{ID: "C04-R8", Title: "the declared effect of Unpack rests on an exact size test before every pushing loop", Floor: 1, Run: unpackSizeCheckIsExact},
 			{ID: "C04-R9", Title: "host entry points do not push", Floor: 5, Run: hostEntryPointsDoNotPush},
+			{ID: "C04-R10", Title: "nesting counters of the VM are taken off in a deferred function (shared with C03-R34)", Floor: 1, Run: nestingCountersAreKeptOnEveryPath},
 		},
 	})
 }
